@@ -7,10 +7,12 @@ package known
 
 import (
 	"bufio"
+	"encoding/base64"
 	"encoding/json"
 	"fmt"
 	"os"
 	"strings"
+	"unicode/utf8"
 )
 
 // Case is one concrete, replayable instance of a property check.
@@ -22,6 +24,55 @@ type Case struct {
 	Want     string   `json:"want,omitempty"`
 	Got      string   `json:"got,omitempty"`
 	Detail   string   `json:"detail,omitempty"`
+}
+
+type caseJSON struct {
+	Property  string   `json:"property"`
+	Check     string   `json:"check"`
+	Eco       string   `json:"eco"`
+	Inputs    []string `json:"inputs"`
+	InputsB64 []string `json:"inputs_b64,omitempty"`
+	Want      string   `json:"want,omitempty"`
+	Got       string   `json:"got,omitempty"`
+	Detail    string   `json:"detail,omitempty"`
+}
+
+// MarshalJSON keeps inputs that are not valid UTF-8 intact by adding a base64
+// copy of all inputs (JSON strings cannot carry arbitrary bytes).
+func (c Case) MarshalJSON() ([]byte, error) {
+	j := caseJSON{Property: c.Property, Check: c.Check, Eco: c.Eco, Inputs: c.Inputs, Want: c.Want, Got: c.Got, Detail: c.Detail}
+	raw := false
+	for _, in := range c.Inputs {
+		if !utf8.ValidString(in) {
+			raw = true
+		}
+	}
+	if raw {
+		for _, in := range c.Inputs {
+			j.InputsB64 = append(j.InputsB64, base64.StdEncoding.EncodeToString([]byte(in)))
+		}
+	}
+	return json.Marshal(j)
+}
+
+// UnmarshalJSON prefers the base64 copy of the inputs when present.
+func (c *Case) UnmarshalJSON(b []byte) error {
+	var j caseJSON
+	if err := json.Unmarshal(b, &j); err != nil {
+		return err
+	}
+	*c = Case{Property: j.Property, Check: j.Check, Eco: j.Eco, Inputs: j.Inputs, Want: j.Want, Got: j.Got, Detail: j.Detail}
+	if len(j.InputsB64) > 0 {
+		c.Inputs = nil
+		for _, e := range j.InputsB64 {
+			d, err := base64.StdEncoding.DecodeString(e)
+			if err != nil {
+				return err
+			}
+			c.Inputs = append(c.Inputs, string(d))
+		}
+	}
+	return nil
 }
 
 // Key returns the strings identifying the case.
